@@ -1448,6 +1448,42 @@ class Analysis:
                     res = o if res is None else res & o
         return res
 
+    def idom(self):
+        """immediate dominators (Cooper-Harvey-Kennedy) of the reachable CFG"""
+        if hasattr(self, '_idom'):
+            return self._idom
+        rpo = self.cfg.rpo
+        pos = {n.id: i for i, n in enumerate(rpo)}
+        idom = {rpo[0].id: rpo[0].id}
+        changed = True
+        while changed:
+            changed = False
+            for n in rpo[1:]:
+                ps = [p.id for p, i in n.preds if p.id in idom]
+                if not ps:
+                    continue
+                new = ps[0]
+                for p in ps[1:]:
+                    x, y = p, new
+                    while x != y:
+                        while pos[x] > pos[y]:
+                            x = idom[x]
+                        while pos[y] > pos[x]:
+                            y = idom[y]
+                    new = x
+                if idom.get(n.id) != new:
+                    idom[n.id] = new
+                    changed = True
+        self._idom = idom
+        return idom
+
+    def dominators_of(self, nid, limit=400):
+        idom = self.idom()
+        out = [nid]
+        while idom.get(out[-1], out[-1]) != out[-1] and len(out) < limit:
+            out.append(idom[out[-1]])
+        return out
+
     def iteration_facts(self, hid):
         """facts every completed iteration of loop hid has established when it reaches the back edge"""
         h = [n for n in self.cfg.rpo if n.id == hid]
